@@ -20,7 +20,12 @@ func NewConnectGun(cfg GunConfig, answLog *zap.Logger) *BaseGun {
 		cfg.TargetResolved = cfg.Target
 	}
 
-	return NewBaseGun(newConnectClient, cfg, answLog)
+	// The tunnel is dialed at the pre-resolved address; cfg.Target keeps the configured name,
+	// which is the default Host of the requests, as for the other HTTP guns.
+	dialTarget := cfg.TargetResolved
+	return NewBaseGun(func(conf ClientConfig, _ string) Client {
+		return newConnectClient(conf, dialTarget)
+	}, cfg, answLog)
 }
 
 func DefaultConnectGunConfig() GunConfig {
